@@ -5,11 +5,11 @@ KEY_H = "C03:hoisted-walrus-assigned-before-earlier-operands"
 
 
 def run(ctx: Ctx) -> int:
-    n = ctx.pick(120, 1500)
+    n = ctx.pick(120, 900)
     from lib import e4_corpus
     from lib.e4_region import tags
     nfixed = len(e4_corpus.corpus("c03", n, ctx.seed)) - n       # fixed programs + array-flavoured generated ones, all outside the regions
-    jobs = e4_check.jobs_for(ctx, "c03", n, batch=1, timeout=ctx.pick(150, 1200), total=n + nfixed, single_upto=12)
+    jobs = e4_check.jobs_for(ctx, "c03", n, batch=1, timeout=ctx.pick(150, 900), total=n + nfixed, single_upto=12)
     want = ctx.pick(3, 12)
     have = len(e4_corpus.corpus("c03", want, ctx.seed, "hoist-order"))
     jobs += e4_check.jobs_for(ctx, "c03", want, batch=1, timeout=ctx.pick(120, 600), region="hoist-order", key=KEY_H, total=have)
@@ -22,19 +22,19 @@ def run(ctx: Ctx) -> int:
                   "inputs": "x in [-3, 4] (loop bounds), y in [-1000, 1000], results of the first 8 opaque calls unbounded ints", "fuel": "80 block visits on the CFG side"}
     ctx.functions_encoded.append("stage 2: checker/expr_checker.py + stmt_checker.py + cfg_checker.py (operator -> dunder resolution incl. reflected forms, inserted coercions, for -> __iter__/__next__/Option protocol, "
                                  "place decomposition), std/iter.py range / Range.__next__ and std/num.py bindings as reached by the programs, interpreted by lib/e5.py")
-    ctx.bounds["stage 2"] = "first %d programs of the corpus through the checked CFGs; opaque results bounded by |r| <= 1000; paths with a 64-bit overflow, inside a known C04 region or out of fuel are outside" % ctx.pick(36, 500)
+    ctx.bounds["stage 2"] = "first %d programs of the corpus through the checked CFGs; opaque results bounded by |r| <= 1000; paths with a 64-bit overflow, inside a known C04 region or out of fuel are outside" % ctx.pick(36, 300)
     ctx.outside_claim = ["HUGR validity, linear values and everything after the emitted HUGR (packaging, validation, LLVM lowering, run time)", "64-bit wrap-around of arithmetic (C04)",
                          "field mutation of structs (rejected by /repo), nat arithmetic at HUGR level", "programs larger than the generator's depth bound", "programs inside the regions of the known findings (probed separately)"]
     ctx.assumptions = ["edge convention successors[1] = true branch, successors[0] = false branch", "models of the iterator protocol nodes (MakeIter / IterNext) in lib/e4.py"]
     # stage 2 (E5): the same programs through the *checked* CFGs of the real front end (operator resolution, coercions, iterator protocol, 64-bit arithmetic)
-    jobs += e4_check.jobs_for(ctx, "c03", n, batch=1, timeout=ctx.pick(200, 1500), total=n + nfixed, harness="harness/E5_equiv.py", fn="h_equiv5", single_upto=12,
-                              upto=ctx.pick(36, 500))
+    jobs += e4_check.jobs_for(ctx, "c03", n, batch=1, timeout=ctx.pick(200, 900), total=n + nfixed, harness="harness/E5_equiv.py", fn="h_equiv5", single_upto=12,
+                              upto=ctx.pick(36, 300))
     # stage 3 (E7): the same programs through the HUGR that /repo's back end emits for them (lib/e7.py)
-    jobs += e4_check.jobs_for(ctx, "c03", n, batch=1, timeout=ctx.pick(200, 1500), total=n + nfixed, harness="harness/E7_equiv.py", fn="h_equiv7", single_upto=12,
-                              upto=ctx.pick(36, 400))
+    jobs += e4_check.jobs_for(ctx, "c03", n, batch=1, timeout=ctx.pick(200, 900), total=n + nfixed, harness="harness/E7_equiv.py", fn="h_equiv7", single_upto=12,
+                              upto=ctx.pick(36, 300))
     ctx.functions_encoded.append("stage 3: compiler/cfg_compiler.py, expr_compiler.py, stmt_compiler.py, func_compiler.py, core.py (CompilerContext.compile, track_hugr_side_effects, "
                                  "monomorphization) and the std compilers reached by the programs: the emitted HUGR is interpreted by lib/e7.py")
-    ctx.bounds["stage 3"] = "first %d programs of the corpus through the emitted HUGR; same value bounds; in addition every dataflow region must order its possibly side-effecting nodes" % ctx.pick(36, 400)
+    ctx.bounds["stage 3"] = "first %d programs of the corpus through the emitted HUGR; same value bounds; in addition every dataflow region must order its possibly side-effecting nodes" % ctx.pick(36, 300)
     ctx.crosshair(jobs)
     v = e4_check.collect_verdicts(ctx)
     e5r = e4_check.collect_e5(ctx)
